@@ -8,6 +8,7 @@ mod wire;
 mod gen;
 mod gen_sigma;
 mod gen_enc;
+mod gen_bind;
 mod gen_range;
 mod range;
 mod enc;
